@@ -13,7 +13,8 @@ import re
 from common import Driver, Violation, make_request
 
 PIPE_BUF = 4096
-EMITS = ("emit", "emiterr", "killed")     # stream directions fed by a child actor
+EMITS = ("emit", "emiterr", "killed", "chain")     # stream directions fed by a child actor
+# "chain" = producer child | user-made blocking pipe (os/pipe :RW) | consumer child (cat) | :pipe to the parent
 CHILD = ("cat",) + EMITS
 
 
@@ -64,7 +65,7 @@ class C16(Driver):
             return r.randint(cap, 40 * cap)
 
         for s in range(nsd):
-            kind = r.choice(["pipe", "pipe", "unix", "unix", "cat", "emit", "emiterr", "killed"]) if mode == "single" else r.choice(["pipe", "unix"])
+            kind = r.choice(["pipe", "pipe", "unix", "unix", "cat", "emit", "emiterr", "killed", "chain"]) if mode == "single" else r.choice(["pipe", "unix"])
             sd = {"id": s, "kind": kind, "w": 10 + s}
             if kind == "unix":
                 sd["accepted_writes"] = r.random() < 0.5      # which end of the connection the writer holds
@@ -77,7 +78,9 @@ class C16(Driver):
                     sd["sig"] = r.choice([9, 9, 15, 2])
                     sd["kill_ms"] = r.choice([0, 1, 3, 10])
                     sd["emit"] = min(sd["emit"], 3 * cap)
-                nchild = sum(1 for x in sds if x["kind"] in CHILD)
+                nchild = sum(2 if x["kind"] == "chain" else 1 for x in sds if x["kind"] in CHILD)
+                if kind == "chain":
+                    sd["exit"], sd["sig"] = 0, 0
                 sd["w"] = 1000 + 4 * nchild + (2 if kind == "emiterr" else 1)   # actor index = spawn order, fd 1 or 2
             sds.append(sd)
             # writer task(s)
@@ -155,6 +158,12 @@ class C16(Driver):
                 sig = r.choice([0, 0, 0, 9, 15])
                 tasks.append({"id": tid, "role": "e", "sd": -1, "steps": [], "ms": r.choice([0, 1, 4]), "child_ms": r.choice([0, 2, 7]),
                               "code": r.choice([0, 0, 1, 3, 255]), "sig": sig, "x": r.random() < 0.5})
+                if r.random() < 0.35:
+                    # os/spawn + a wait that is cut short (deadline or cancel) before the child exits: the status is
+                    # still reported exactly, through the process object, once the child has exited
+                    tasks[-1]["cut"] = r.choice(["deadline", "cancel"])
+                    tasks[-1]["child_ms"] = r.choice([4, 8])
+                    tasks[-1]["x"] = False
                 tid += 1
         flavour = "asan" if r.random() < 0.15 else "plain"
         plan = {"property": "C16", "knobs": knobs, "mode": mode, "sds": sds, "tasks": tasks, "flavour": flavour}
@@ -306,6 +315,9 @@ class C16(Driver):
                     A("    (put H [:w %d] c) (put H [:r %d] a))" % (s, s))
             elif sd["kind"] == "cat":
                 A("  (let [p (os/spawn [\"sim-child\" \"C\"] :p {:in :pipe :out :pipe})] (put H [:p %d] p) (put H [:w %d] (p :in)) (put H [:r %d] (p :out)))" % (s, s, s))
+            elif sd["kind"] == "chain":
+                A("  (let [[pr pw] (os/pipe :RW) p1 (os/spawn [\"sim-child\" \"w%d\" \"x0\"] :p {:out pw}) p2 (os/spawn [\"sim-child\" \"C\"] :p {:in pr :out :pipe})]" % sd["emit"])
+                A("    (:close pr) (:close pw) (put H [:p2 %d] p1) (put H [:p %d] p2) (put H [:r %d] (p2 :out)))" % (s, s, s))
             elif sd["kind"] == "killed":
                 A("  (let [p (os/spawn [\"sim-child\" \"w%d\" \"s100000\"] :p {:out :pipe})] (put H [:p %d] p) (put H [:r %d] (p :out)))"
                   % (sd["emit"], s, s))
@@ -390,8 +402,17 @@ class C16(Driver):
                 tail = "k%d" % t["sig"] if t["sig"] else "x%d" % t["code"]
                 A("  (ev/sleep %s)" % (t["ms"] / 1000.0))
                 A("  (sim/ev :inv %d 0)" % T)
-                A("  (try (sim/ev :ret %d 0 :exit (os/execute [\"sim-child\" \"s%d\" \"%s\"] :p%s)) ([e] (sim/ev :ret %d 0 :err e)))"
-                  % (T, t["child_ms"], tail, "x" if t["x"] else "", T))
+                if t.get("cut"):
+                    A("  (def p (os/spawn [\"sim-child\" \"s%d\" \"%s\"] :p))" % (t["child_ms"], tail))
+                    if t["cut"] == "deadline":
+                        A("  (protect (ev/with-deadline %s (os/proc-wait p)))" % (t["child_ms"] / 2000.0))
+                    else:
+                        A("  (let [w (ev/go (fn [] (protect (os/proc-wait p))))] (ev/sleep %s) (ev/cancel w :stop))" % (t["child_ms"] / 2000.0))
+                    A("  (ev/sleep %s)" % (t["child_ms"] * 2 / 1000.0))
+                    A("  (try (sim/ev :ret %d 0 :exit (get p :return-code)) ([e] (sim/ev :ret %d 0 :err e)))" % (T, T))
+                else:
+                    A("  (try (sim/ev :ret %d 0 :exit (os/execute [\"sim-child\" \"s%d\" \"%s\"] :p%s)) ([e] (sim/ev :ret %d 0 :err e)))"
+                      % (T, t["child_ms"], tail, "x" if t["x"] else "", T))
             elif t["role"] == "k":
                 sd = plan["sds"][s]
                 signame = {9: ":kill", 15: ":term", 2: ":int"}[sd["sig"]]
@@ -400,6 +421,8 @@ class C16(Driver):
                 A("  (try (do (os/proc-kill (H [:p %d]) false %s) (sim/ev :ret %d 0 :killed)) ([e] (sim/ev :ret %d 0 :err e)))" % (s, signame, T, T))
             else:
                 A("  (sim/ev :inv %d 0)" % T)
+                if plan["sds"][s]["kind"] == "chain":
+                    A("  (protect (os/proc-wait (H [:p2 %d])))" % s)
                 A("  (try (sim/ev :ret %d 0 :exit (os/proc-wait (H [:p %d]))) ([e] (sim/ev :ret %d 0 :err e)))" % (T, s, T))
             A("  (sim/ev :done %d))" % T)
         by = ""
@@ -745,8 +768,8 @@ class C16(Driver):
             if r_ is None:
                 V("C16/child/os-execute-never-returned", "expected status %d" % expect)
             elif r_[1][0] == ":exit":
-                if int(r_[1][1]) != expect:
-                    V("C16/child/exit-status-misreported/kind=execute", "expected %d got %s" % (expect, r_[1][1]))
+                if not r_[1][1].lstrip("-").isdigit() or int(r_[1][1]) != expect:
+                    V("C16/child/exit-status-misreported/kind=%s" % ("wait-cut-short" if t.get("cut") else "execute"), "expected %d got %s" % (expect, r_[1][1]))
                 elif t["x"] and expect != 0:
                     V("C16/child/os-execute-x-ignored-non-zero-status", "status %d returned instead of raised" % expect)
             else:
